@@ -274,6 +274,19 @@ func execHM(f []string) string {
 	return "ok " + strings.Join(outs, " ; ")
 }
 
+// sort `k<id>=<val>` items by numeric id
+func hmSortByID(vs []string) {
+	id := func(s string) int {
+		s = strings.TrimPrefix(s, "k")
+		if i := strings.IndexByte(s, '='); i >= 0 {
+			s = s[:i]
+		}
+		n, _ := strconv.Atoi(s)
+		return n
+	}
+	sort.SliceStable(vs, func(i, j int) bool { return id(vs[i]) < id(vs[j]) })
+}
+
 func hmBool(b bool) string {
 	if b {
 		return "b:true"
@@ -529,7 +542,7 @@ func (c *hmCtx) op(p []string) (ans string) {
 			}
 		}
 		if !c.layout {
-			sort.Strings(vs)
+			hmSortByID(vs)
 		}
 		return "[" + strings.Join(vs, ",") + "]"
 	case "iter":
@@ -567,7 +580,7 @@ func (c *hmCtx) op(p []string) (ans string) {
 			}
 		}
 		if !c.layout {
-			sort.Strings(vs)
+			hmSortByID(vs)
 		}
 		return "[" + strings.Join(vs, ",") + "]"
 	case "add":
